@@ -124,7 +124,12 @@ def main():
         lines = text.split("\n")
         for i in candidate_lines(path, text):
             for name, rx, rep in OPERATORS:
+                # only the code part of the line is mutated, not a trailing comment
+                cut = lines[i].find("//")
+                code_end = cut if cut >= 0 and lines[i][:cut].count('"') % 2 == 0 else len(lines[i])
                 for m in re.finditer(rx, lines[i]):
+                    if m.start() >= code_end:
+                        continue
                     new = lines[i][: m.start()] + (rep(m) if callable(rep) else m.expand(rep)) + lines[i][m.end():]
                     if new != lines[i]:
                         mutants.append({"id": "%s:%d:%s:%d" % (rel, i + 1, name, m.start()), "file": rel, "line": i, "op": name, "old": lines[i], "new": new})
